@@ -111,7 +111,7 @@ func Alphabet(c Caps, nsubs int, faults bool) []Sym {
 		out = append(out, Sym{Op{K: "specific", Sub: subNames[0], V: "0"}, 0}, Sym{Op{K: "specific", Sub: subNames[1], V: "0"}, 1}, Sym{Op{K: "specific", Sub: subNames[0], V: "1"}, 0})
 	}
 	if c.RelVal {
-		out = append(out, Sym{Op{K: "relval", V: "0"}, -1})
+		out = append(out, Sym{Op{K: "relval", V: "0"}, -1}, Sym{Op{K: "relval", V: "2"}, -1})
 	}
 	if c.Epoch {
 		out = append(out, Sym{Op{K: "epoch"}, -1})
